@@ -43,7 +43,9 @@ def run_property(prop: str, repo: str, tier: str, seed: int, *, write_evidence: 
             extra = {}
             if hasattr(mod, 'thorough'):
                 extra.update(mod.thorough(ctx, seed) or {})
-            base_clean = all(o.ok for o in ctx.obligations)
+            from .report import load_known, match_known
+            _known = load_known()
+            base_clean = all(o.ok or match_known(prop, o, _known) is not None for o in ctx.obligations)
             variants = list(getattr(mod, 'VARIANTS', []))
             if variants and base_clean:
                 from .variants import run_variants, summarise
